@@ -1,8 +1,14 @@
-(** Evaluator of the C08 correspondence streams.
+(** Evaluators of the C08 correspondence streams.
 
-    Stream "requests": a rule set, a request path and an equivalent re-encoding
-    of it, and what the real server + requestcontext + repository + rule did with
-    both.  Stream "units": rule_impl.go's unescape on byte strings. *)
+    Streams "requests" (heimdall's own HTTP server), "envoy" (grpcv3 request context) and
+    "xfu" (target handed over in X-Forwarded-Uri): a rule set (path_params exact, or glob /
+    regex as oracle tables recorded from the real matchers), a request path and an equivalent
+    re-encoding of it, what the real entry point + repository + rule executor did with both
+    on a fresh repository, and whether the repeated requests on a second repository after a
+    history of other requests got the same answers ([o_stable]).  Correspondence compares
+    the projection the property talks about ([proj_eqb]); the property predicate is built
+    from C08/Spec.v.  Stream "units": rule_impl.go's unescape on byte strings
+    (supplementary to "requests": the same decoding is observed end to end there). *)
 From HV Require Export Base.Prelude Base.GoUrl C08.Model C08.Spec.
 
 Local Open Scope char_scope.
@@ -87,7 +93,7 @@ Definition caps_ok (rules : list rule) (raw : string) (o : outcome) : bool :=
     `no_decode` the request path as it is, under `on` the decoded path in canonical
     escaping — after the rule's prefix rewriting, if any.  Applies when the path has
     an encoded slash and the expected path is one net/url writes unchanged. *)
-Definition up_ok (rules : list rule) (raw query : string) (o : outcome) (uri : string) : bool :=
+Definition up_ok (rules : list rule) (raw : string) (o : outcome) (uri : string) : bool :=
   match o with
   | Accepted rid false _ (Some _) =>
     match rule_of rules rid with
@@ -132,8 +138,8 @@ Definition prop (c : case) : bool :=
   (negb (equiv_paths (c_raw c) (c_raw2 c)) || same_decision (o_a c) (o_b c)) &&
   off_ok (c_rules c) (c_raw c) (o_a c) && off_ok (c_rules c) (c_raw2 c) (o_b c) &&
   caps_ok (c_rules c) (c_raw c) (o_a c) && caps_ok (c_rules c) (c_raw2 c) (o_b c) &&
-  up_ok (c_rules c) (c_raw c) (c_query c) (o_a c) (o_auri c) &&
-  up_ok (c_rules c) (c_raw2 c) (c_query c) (o_b c) (o_buri c) &&
+  up_ok (c_rules c) (c_raw c) (o_a c) (o_auri c) &&
+  up_ok (c_rules c) (c_raw2 c) (o_b c) (o_buri c) &&
   precond_ok (c_rules c) (c_dflt c) (c_raw c) (o_a c) && precond_ok (c_rules c) (c_dflt c) (c_raw2 c) (o_b c) &&
   o_stable c.
 
@@ -180,8 +186,8 @@ Definition prop_envoy (c : case) : bool :=
   off_ok (c_rules c) (c_raw c) (o_a c) && off_ok (c_rules c) (c_raw2 c) (o_b c) &&
   (negb (wellformed (c_raw c)) || caps_ok (c_rules c) (c_raw c) (o_a c)) &&
   (negb (wellformed (c_raw2 c)) || caps_ok (c_rules c) (c_raw2 c) (o_b c)) &&
-  (negb (wellformed (c_raw c)) || up_ok (c_rules c) (c_raw c) (c_query c) (o_a c) (o_auri c)) &&
-  (negb (wellformed (c_raw2 c)) || up_ok (c_rules c) (c_raw2 c) (c_query c) (o_b c) (o_buri c)) &&
+  (negb (wellformed (c_raw c)) || up_ok (c_rules c) (c_raw c) (o_a c) (o_auri c)) &&
+  (negb (wellformed (c_raw2 c)) || up_ok (c_rules c) (c_raw2 c) (o_b c) (o_buri c)) &&
   precond_ok (c_rules c) (c_dflt c) (c_raw c) (o_a c) && precond_ok (c_rules c) (c_dflt c) (c_raw2 c) (o_b c) &&
   o_stable c.
 
